@@ -82,7 +82,51 @@ func FuncName(fn *ssa.Function) string {
 				break
 			}
 		}
+		// closures of a helper that is analysed as part of its caller share the caller's name space: they are numbered
+		// after the caller's own closures of the same role (and after those of the caller's earlier helpers)
+		if IsTransparent(par) {
+			host := Host(par)
+			for _, sib := range host.AnonFuncs {
+				if sib != par && !IsTransparent(sib) && closureRole(host, sib) == role {
+					n++
+				}
+			}
+			for _, kid := range transparentKids[host] {
+				if kid == par {
+					break
+				}
+				for _, sib := range kid.AnonFuncs {
+					if closureRole(kid, sib) == role {
+						n++
+					}
+				}
+			}
+		}
 		s = FuncName(par) + "$" + role + fmt.Sprint(n)
+		// a goroutine body that used to be a named function started by this parent (go x.cleanup() turned into
+		// go func() { ... }()): when that function is gone and this is the parent's only new go-closure, it keeps the
+		// function's name, so that the rows confirmed for the goroutine still find it
+		if role == "go" && KnownFuncs != nil && !KnownFuncs[s] && fn.Pkg != nil {
+			var missing []string
+			for k, f := range KnownGoTargets {
+				if f == FuncName(par) && !funcDeclared(fn.Pkg, k) {
+					missing = append(missing, k)
+				}
+			}
+			unknownGo := 0
+			m := 0
+			for _, sib := range par.AnonFuncs {
+				if closureRole(par, sib) == "go" {
+					m++
+					if !KnownFuncs[FuncName(par)+"$go"+fmt.Sprint(m)] {
+						unknownGo++
+					}
+				}
+			}
+			if len(missing) == 1 && unknownGo == 1 {
+				s = missing[0]
+			}
+		}
 	} else {
 		if fn.Pkg != nil {
 			s = fn.RelString(fn.Pkg.Pkg)
@@ -110,6 +154,41 @@ func OrdinalName(fn *ssa.Function) string {
 }
 
 var fnNames, fnRoles sync.Map
+
+// KnownGoTargets: named functions that the confirmed tree starts with a go statement -> the function that starts them.
+var KnownGoTargets map[string]string
+
+// funcDeclared: a function or method with that (FuncName-style) name is declared in the package.
+func funcDeclared(pkg *ssa.Package, name string) bool {
+	for _, m := range pkg.Members {
+		switch x := m.(type) {
+		case *ssa.Function:
+			if x.Name() == name {
+				return true
+			}
+		case *ssa.Type:
+			for _, t := range []types.Type{x.Type(), types.NewPointer(x.Type())} {
+				ms := pkg.Prog.MethodSets.MethodSet(t)
+				for i := 0; i < ms.Len(); i++ {
+					if f := pkg.Prog.MethodValue(ms.At(i)); f != nil && f.Synthetic == "" {
+						n := f.RelString(pkg.Pkg)
+						for {
+							t2 := tyArgs.ReplaceAllString(n, "")
+							if t2 == n {
+								break
+							}
+							n = t2
+						}
+						if n == name {
+							return true
+						}
+					}
+				}
+			}
+		}
+	}
+	return false
+}
 
 // KnownFuncs is the frozen list of function names (role-based) of the tree the tables were confirmed against; nil
 // disables the transparent-closure view.
